@@ -406,6 +406,7 @@ def vary_names(decls, every=3, upper=True, raw=True, vis=True, hostile=True):
         for j, e in enumerate(d.get("enums", [])):
             e.setdefault("storage_path", (k + j) % 2 == 0)      # #[bitenum(::core::primitive::u8, ..)] for native widths
             e.setdefault("args_rev", (k + j) % 2 == 1)          # #[bitenum(exhaustive = .., uN)]
+            e.setdefault("exh_colon", (k + j) % 5 == 2)         # legacy separator: #[bitenum(uN, exhaustive: ..)]
             e.setdefault("derive_default", (k + j) % 4 == 1)    # #[derive(Default)] + #[default] on a variant
             if (k + j) % 3 == 0 and e["variants"]:
                 e["variants"][-1].setdefault("attrs", ["#[cfg_attr(all(), doc = \"documented through cfg_attr\")]", "#[allow(dead_code)]"])
